@@ -80,3 +80,20 @@ pub fn ls_slope(xs: &[f64], ys: &[f64]) -> f64 {
     }
     sxy / sxx
 }
+
+/// Indices of the `events()` calls that are accepted-step ends: the handler evaluates the event
+/// functions once per accepted step (at its end) and the root finder only evaluates strictly
+/// inside that step, so step ends are exactly the calls that set a new record in the direction
+/// of integration (index 0 = initial call).
+pub fn step_end_calls(ev_t: &[f64], d: f64) -> Vec<usize> {
+    let mut out = vec![];
+    let mut best = f64::NEG_INFINITY;
+    for (k, t) in ev_t.iter().enumerate() {
+        let v = t * d;
+        if k == 0 || v > best {
+            out.push(k);
+            best = v;
+        }
+    }
+    out
+}
